@@ -84,13 +84,23 @@ def check_temperature(sh, es, rng):
     elif kind in (2, 3):
         T = round(rng.uniform(0, 6000), rng.randint(0, 4))
         f, g, off = (("from_celsius", "°C", 273.15) if kind == 2 else ("from_fahrenheit", "°F", 459.67))
-        code = f"{f}({g}({plit(T)} K)) -> K"
+        # the same temperature written in kelvin, in a prefixed kelvin, or as an energy over the Boltzmann constant
+        uname, ufac = rng.choice([("K", 1.0), ("K", 1.0), ("mK", 1e-3), ("µK", 1e-6), ("kK", 1e3), ("millikelvin", 1e-3), ("kelvin", 1.0)])
+        tq = f"{plit(float(Fraction(T) / Fraction(ufac)))} {uname}"
+        code = rng.choice([f"{f}({g}({tq})) -> K", f"{f}({tq} -> {g}) -> K", f"({tq} -> {g}) {g} -> K"])
         r = es.eval(code)
         got = scalar(r)
         sh.judged()
         sh.nontrivial(code)
         if got is None or abs(got - T) > 1e-9 * (abs(T) + off):
             sh.violation({"code": code}, f"`{code}` = {r.get('val_text') or r.get('msg') or r.get('panic')}, expected {T!r} K")
+        if kind == 2:
+            code2 = f"{tq} -> °C"
+            r2 = es.eval(code2)
+            got2 = scalar(r2)
+            sh.judged()
+            if got2 is None or abs(got2 - (T - 273.15)) > 1e-9 * (abs(T) + off):
+                sh.violation({"code": code2}, f"`{code2}` = {r2.get('val_text') or r2.get('msg')}, expected {T - 273.15!r}")
     else:
         x = round(rng.uniform(-200, 2000), 3)
         code = f"{plit(x)} °C -> °F"
